@@ -178,7 +178,7 @@ def post(check, pairs, stats):
 CFG = {
     "id": "C09",
     "level": "proof",
-    "lean_modules": ["GeomV.C09.Proofs", "GeomV.C09.ProofsProj", "GeomV.C09.ProofsDatum", "GeomV.C09.ProofsPipeline", "GeomV.C09.ProofsInit", "GeomV.C09.ProofsInit2", "GeomV.C09.ProofsInit3", "GeomV.C09.ProofsInit4"],
+    "lean_modules": ["GeomV.C09.Proofs", "GeomV.C09.ProofsProj", "GeomV.C09.ProofsDatum", "GeomV.C09.ProofsPipeline", "GeomV.C09.ProofsInit", "GeomV.C09.ProofsInit2", "GeomV.C09.ProofsInit3", "GeomV.C09.ProofsInit4", "GeomV.C09.ProofsParse"],
     "exe": "geomv_c09",
     "go_cmd": "c09",
     "stages": ["go:gen", "go:impl", "lean:judge"],
@@ -216,11 +216,15 @@ CFG = {
         "snyder_merc_eq", "snyder_lcc_eq", "snyder_aea_eq", "snyder_eqdc_eq",
         # the known finding, proved on the model
         "tmerc_sphere_ignores_false_origin",
+        # projString.go / deriveConstants.go: pinned source text of the hand-modelled parts; the REGENERATED
+        # arithmetic of DeriveConstants (Gen.Go.DeriveConstants_core1, statement by statement) = deriveConstants.js
+        "projString_keys_pinned", "projString_special_pinned", "projString_frame_pinned", "DeriveConstants_shape_pinned",
+        "go_deriveCore_eq_js_S", "go_deriveCore_eq_js",
     ]],
     "trusted_base": [
         "Lean 4.33.0 kernel; axioms of every theorem printed by #print axioms must be within {propext, Classical.choice, Quot.sound}",
         "T1 extractor harness/cmd/c09/extract (go/ast + go/types constant folding; regex over the proj4js object literals): "
-        "regenerates Gen/GoCommon.lean, Gen/GoProj.lean (closures of merc/lcc/aea/eqdc/tmerc/krovak, the constructor bodies of Merc/LCC/AEA/EqdC/TMerc/UTM/Krovak, aeaPhi1z, datum.go methods incl. compare_datums, checkDatumParams of datum_transform.go) and Gen/Tables.lean from the current sources on every run",
+        "regenerates Gen/GoCommon.lean, Gen/GoProj.lean (closures of merc/lcc/aea/eqdc/tmerc/krovak, the constructor bodies of Merc/LCC/AEA/EqdC/TMerc/UTM/Krovak, aeaPhi1z, datum.go methods incl. compare_datums, checkDatumParams of datum_transform.go) and Gen/Tables.lean from the current sources on every run; Gen/GoParse.lean: the simple cases of projString's switch as key -> field tables, the arithmetic statements of DeriveConstants one definition each, the remaining statements as normalised source text (go/printer) pinned by ProofsParse.*_pinned",
         "hand models Model.lean (Go port) and Js.lean (proj4js) are tied by the correspondence run: Go vs Model to 1e-6 m, "
         "Go vs Js to 0.1 mm, Go vs Spec.Ref to 5 mm on every generated case; Js.lean is additionally cross-checked against the "
         "vendored JavaScript run by node when node is present",
